@@ -264,7 +264,7 @@ Verdict prop(Tape& t, Run& run) {
 	}
 	uint32_t nops = 1 + t.u8() % 4;
 	for (uint32_t k = 0; k < nops; k++) {
-		uint8_t op = t.u8() % 6;
+		uint8_t op = t.u8() % 7;
 		Level level = FULL;
 		std::string when;
 		switch (op) {
@@ -358,6 +358,38 @@ Verdict prop(Tape& t, Run& run) {
 				c.nif.UpdateSkinPartitions(c.shape);
 				ops.push_back("DeletePartitions(" + std::to_string(del.size()) + "); Get; Set; UpdateSkinPartitions");
 				when = "after DeletePartitions + get/set + UpdateSkinPartitions";
+				interesting = true;
+				break;
+			}
+			case 6: { // the triangle list was edited since the partitions were built; then the rebuild
+				std::vector<Triangle> tris;
+				c.shape->GetTriangles(tris);
+				if (tris.empty())
+					break;
+				uint8_t how = t.u8() % 4;
+				std::string what;
+				if (how == 0 && tris.size() < 60000) {
+					Triangle x = tris[t.u16() % tris.size()];
+					tris.push_back(Triangle(x.p1, x.p3, x.p2)); // a back face: new winding of known vertices
+					what = "append a reversed triangle";
+				}
+				else if (how == 1 && tris.size() > 1) {
+					tris.pop_back();
+					what = "drop the last triangle";
+				}
+				else if (how == 2) {
+					std::reverse(tris.begin(), tris.end());
+					what = "reverse the list";
+				}
+				else {
+					size_t a = t.u16() % tris.size();
+					tris.insert(tris.begin(), Triangle(tris[a].p2, tris[a].p3, tris[a].p1)); // rotated copy in front
+					what = "insert a rotated copy in front";
+				}
+				c.shape->SetTriangles(tris);
+				c.nif.UpdateSkinPartitions(c.shape);
+				ops.push_back("SetTriangles(" + what + "); UpdateSkinPartitions");
+				when = "after editing the triangle list + UpdateSkinPartitions";
 				interesting = true;
 				break;
 			}
